@@ -204,16 +204,35 @@ func workerSetup(cfg *wcfg) {
 func workerRun(cfg *wcfg) {
 	s := startServer(cfg, 1000)
 	s1 := dial(s.srv.Addr)
-	must(s1, "SELECT A")
-	ctx := context.Background()
-	_ = ctx
+	if strings.HasPrefix(cfg.Op, "CONN_") {
+		// The session of a connector-driven operation watches a mailbox the operation does not touch: a session
+		// applies the updates queued for it on its own goroutine whenever it gets to it, and those (empty)
+		// transactions would make the step numbering depend on the scheduler.
+		must(s1, "SELECT INBOX")
+	} else {
+		must(s1, "SELECT A")
+	}
 
 	if cfg.Op == "RELEASE" {
-		// precondition: the remote deleted m1 while this session still shows it
+		// precondition: the remote deleted m1 while this session still shows it; the session has been told
+		// (it answers the EXPUNGE) before the counter is armed
 		if err := s.conn.Submit(imap.NewMessagesDeleted("rm1"), 20*time.Second); err != nil {
 			fatal("precondition MessageDeleted: %v", err)
 		}
-		must(s1, "NOOP")
+		told := false
+		for i := 0; i < 2000 && !told; i++ {
+			for _, e := range wire.Events(must(s1, "NOOP").Untagged) {
+				if e.Kind == "EXPUNGE" {
+					told = true
+				}
+			}
+			if !told {
+				time.Sleep(time.Millisecond)
+			}
+		}
+		if !told {
+			fatal("precondition: the session never reported the EXPUNGE of m1")
+		}
 	}
 
 	s.cnt.arm(cfg.FailAt, cfg.Kind)
@@ -488,7 +507,9 @@ func observe(s *server) *obsState {
 		}
 		c.Cmd("UNSELECT")
 	}
-	c.Cmd("LOGOUT")
+	// the session stays open until the rows and files have been read: releasing a session makes gluon purge
+	// messages marked for deletion, which must not happen (and hide left-overs) while we look
+	defer c.Cmd("LOGOUT")
 
 	// below the protocol: rows of the message table and files of the store, through gluon's own interfaces
 	s.dbb.mu.Lock()
@@ -506,7 +527,7 @@ func observe(s *server) *obsState {
 	for _, id := range ids {
 		b, err := st.Get(id)
 		if err != nil {
-			files[id.String()] = "UNREADABLE"
+			files[id.String()] = "UNREADABLE: " + err.Error()
 			continue
 		}
 		files[id.String()], _ = contentOf(b)
